@@ -283,11 +283,21 @@ func c12ValidShard[E algebra.PrimeGroupElement[E, S], S algebra.PrimeFieldElemen
 }
 
 func c12Deal[E algebra.PrimeGroupElement[E, S], S algebra.PrimeFieldElement[S]](r *Rng, g algebra.PrimeGroup[E, S]) ([]*mpc.BaseShard[E, S], error) {
-	ac, err := c12GenAnyAS(r)
-	if err != nil {
-		return nil, err
+	// some generated structures are refused by the Feldman scheme (e.g. hierarchical constraints
+	// over the field): draw again
+	var shards ds.Map[sharing.ID, *mpc.BaseShard[E, S]]
+	var err error
+	for try := 0; try < 20; try++ {
+		var ac accessstructures.Monotone
+		ac, err = c12GenAnyAS(r)
+		if err != nil {
+			continue
+		}
+		shards, err = trusteddealer.Deal(g, ac, r)
+		if err == nil {
+			break
+		}
 	}
-	shards, err := trusteddealer.Deal(g, ac, r)
 	if err != nil {
 		return nil, err
 	}
